@@ -314,8 +314,28 @@ pub fn run_one(cfg: DriveCfg, file: usize) -> i32 {
     let mut histories = 0usize;
     let mut w = TraceWriter::create(&format!("{}/drive_{:03}.ndjson", cfg.out_dir, file));
     let mut r = Rng::new(cfg.seed.wrapping_mul(1000003).wrapping_add(file as u64));
+    // LS_HEAP_LOG: every allocator / count / buffer event of the run, for the buffer-protocol monitor (spec/Heap.tla)
+    let mut heap = std::env::var("LS_HEAP_LOG").ok().map(|_| {
+        crate::shim::heap_log_start();
+        std::io::BufWriter::new(std::fs::File::create(format!("{}/drive_{:03}.heap.ndjson", cfg.out_dir, file)).unwrap())
+    });
+    let heap_flush = |h: &mut Option<std::io::BufWriter<std::fs::File>>, head: Option<Value>, tail: Option<Value>| {
+        if let Some(f) = h {
+            if let Some(v) = head {
+                writeln!(f, "{v}").unwrap();
+            }
+            for e in crate::shim::heap_log_take() {
+                writeln!(f, "{}", crate::shim::heap_record(&e)).unwrap();
+            }
+            if let Some(v) = tail {
+                writeln!(f, "{v}").unwrap();
+            }
+            f.flush().unwrap();
+        }
+    };
     for hi in 0..cfg.histories {
         let mut pool = Pool::new(cfg.nh, maxbufs, &stat);
+        heap_flush(&mut heap, Some(json!({"ev":"init","name":format!("drive {} file {} history {}", cfg.mode, file, hi)})), None);
         w.init(cfg.nh, maxbufs, &stat, &json!({"file":file,"history":hi,"seed":cfg.seed,"mode":cfg.mode}));
         let mut sample_ops = vec![];
         for _ in 0..cfg.ops {
@@ -325,6 +345,7 @@ pub fn run_one(cfg: DriveCfg, file: usize) -> i32 {
             w.flush();
             let res = pool.exec(&mut op, r.below(7));
             let o = pool.observe();
+            heap_flush(&mut heap, Some(json!({"ev":"op","op":op.op,"e":op.e,"h":op.h,"poke":op.op == "clone_ovf"})), None);
             *op_counts.entry(op.op.clone()).or_default() += 1;
             *cls_counts.entry(format!("{}{}", res.cls, if res.msg.is_empty() { String::new() } else { format!(":{}", res.msg.split(':').next().unwrap()) })).or_default() += 1;
             for hd in o["hd"].as_array().unwrap() {
@@ -338,6 +359,7 @@ pub fn run_one(cfg: DriveCfg, file: usize) -> i32 {
             w.call(&call_json(&op, &res), &o, &pool.std_texts());
         }
         let errs = pool.finish();
+        heap_flush(&mut heap, None, Some(json!({"ev":"end","shim":[]})));
         w.end(&errs);
         w.flush();
         if samples.len() < 3 {
